@@ -239,3 +239,134 @@ Proof.
   - exact (from_txdata_sound_trkey _ _ co _ _ _ _ _ _ H).
   - exact (from_txdata_sound_all _ _ co _ _ _ _ _ _ _ H).
 Qed.
+
+(* ------------------------------------------------------------------ the P2PKH script, executed *)
+Lemma p2pkh_exec : forall e h k sg,
+    final_ok (exec (with_sv e SvWitnessV0)
+                   [IOp OP_DUP; IOp OP_HASH160; IPush h; IOp OP_EQUALVERIFY; IOp OP_CHECKSIG]
+                   (mkSt [k; sg] []))
+    = (bytes_eqb h (e_hash160 e k) && e_keyok e k && match sg with [] => false | _ => e_sigok e k sg end).
+Proof.
+  intros e h k sg. cbn. destruct (bytes_eqb h (e_hash160 e k)); [|reflexivity]. cbn.
+  destruct (e_keyok e k); [|reflexivity]. cbn. destruct sg as [|a r]; [reflexivity|].
+  destruct (e_sigok e k (a :: r)); reflexivity.
+Qed.
+
+Lemma elem_of_long : forall k, N.eqb (blen k) 33 = true -> elem_of k = EPush k.
+Proof. intros k H. destruct k as [|a [|b r]]; [discriminate H|discriminate H|reflexivity]. Qed.
+
+(* (c) P2WPKH / P2SH-P2WPKH composed with the evaluator model for key-only outputs: the model of from_txdata
+   answers Ok, interp_pk accepts on the stack it was handed, the key is a 33-byte encoding acceptable under the
+   witness-v0 rules  =>  verify_spend accepts *)
+Lemma wpkh_body_interp_pk : forall e k st cs,
+    Forall normal st -> interp_pk e k st = IAccept cs ->
+    N.eqb (blen k) 33 = true -> e_keyok e k = true ->
+    wpkh_body e k (map conc st) = true.
+Proof.
+  intros e k st cs F I L K. unfold interp_pk in I.
+  destruct st as [|x r]; [discriminate|]. destruct x as [| |s]; try discriminate.
+  destruct (e_sigok e k s) eqn:S; [|discriminate]. unfold final_rule in I.
+  destruct r as [|y r]; [|destruct y; discriminate].
+  cbn [map conc wpkh_body]. rewrite L, p2pkh_exec, ftx_bytes_eqb_refl, K. cbn [andb].
+  inversion F as [|? ? N _]. unfold normal in N. cbn [conc] in N.
+  destruct s; [discriminate N|exact S].
+Qed.
+
+Lemma from_txdata_interp_pk_wpkh : forall e fe co spk ssig wit k t st code cs,
+    from_txdata e fe spk ssig wit = FOk (InPk k t) st code -> t = PtWpkh \/ t = PtShWpkh ->
+    interp_pk e k st = IAccept cs ->
+    N.eqb (blen k) 33 = true -> e_keyok e k = true -> N.leb (blen ssig) 1650 = true ->
+    verify_spend e co spk ssig wit = true.
+Proof.
+  intros e fe co spk ssig wit k t st code cs H T I L K B.
+  assert (F : Forall normal st).
+  { destruct T; subst t.
+    - destruct (ftx_inv_wpkh _ _ _ _ _ _ _ _ H) as (? & ? & _ & _ & WS & _).
+      pose proof (wit_stack_normal wit) as F. rewrite WS in F. inversion F. assumption.
+    - destruct (ftx_inv_shwpkh _ _ _ _ _ _ _ _ H) as (? & ? & ? & ? & _ & _ & _ & _ & _ & _ & WS & _).
+      pose proof (wit_stack_normal wit) as F. rewrite WS in F. inversion F. assumption. }
+  pose proof (wpkh_body_interp_pk _ _ _ _ F I L K) as W.
+  destruct T; subst t.
+  - destruct (from_txdata_sound_wpkh _ _ co _ _ _ _ _ _ H) as (_ & _ & ->). exact W.
+  - destruct (from_txdata_sound_shwpkh _ _ co _ _ _ _ _ _ H) as (_ & _ & ->). rewrite B, W. reflexivity.
+Qed.
+
+(* ------------------------------------------------------------------ (b) completeness, key kinds *)
+Lemma from_txdata_complete_trkey : forall e fe co spk ssig wit k sg,
+    spk_is_p2tr spk = Some k -> wit = [sg] ->
+    verify_spend e co spk ssig wit = true -> f_xonly fe k = true ->
+    from_txdata e fe spk ssig wit = FOk (InPk k PtTr) [elem_of sg] None.
+Proof.
+  intros e fe co spk ssig wit k sg TR -> V X.
+  destruct (p2tr_others _ _ TR) as (PK & PKH & WP & W & SH).
+  unfold verify_spend in V. rewrite W, WP, SH, TR in V. unfold verify_tr in V.
+  destruct ssig; [|discriminate].
+  unfold from_txdata. cbn [ssig_stack_of length lex_bytes elems_of_toks]. rewrite PK, PKH, WP, W, TR.
+  cbv beta iota zeta. rewrite X. cbn [negb map rev app length].
+  destruct (elem_of sg) as [| |[|c r]]; cbn; try reflexivity.
+  rewrite andb_false_r. reflexivity.
+Qed.
+
+Lemma from_txdata_complete_wpkh : forall e fe co spk ssig wit h,
+    spk_is_p2wpkh spk = Some h ->
+    verify_spend e co spk ssig wit = true ->
+    (forall k, hd_error (rev wit) = Some k -> f_pk fe k = Some true) ->
+    exists k sg, wit = [sg; k] /\
+                 from_txdata e fe spk ssig wit = FOk (InPk k PtWpkh) [elem_of sg] (Some (p2pkh_bytes (e_hash160 e k))).
+Proof.
+  intros e fe co spk ssig wit h WP V D.
+  pose proof (p2wpkh_shape _ _ WP) as SHP.
+  assert (PK : spk_is_p2pk spk = None) by (rewrite SHP; reflexivity).
+  assert (PKH : spk_is_p2pkh spk = None) by (rewrite SHP; reflexivity).
+  assert (W : spk_is_p2wsh spk = None) by (rewrite SHP; reflexivity).
+  unfold verify_spend in V. rewrite W, WP in V. destruct ssig; [|discriminate].
+  unfold verify_wpkh in V. destruct wit as [|sg [|k [|]]]; try discriminate.
+  apply andb_true_iff in V. destruct V as [L V]. rewrite p2pkh_exec in V.
+  apply andb_true_iff in V. destruct V as [V _]. apply andb_true_iff in V. destruct V as [HB _].
+  apply ftx_bytes_eqb_eq in HB. exists k, sg. split; [reflexivity|].
+  unfold from_txdata. cbn [ssig_stack_of length lex_bytes elems_of_toks]. rewrite PK, PKH, WP.
+  cbn [map rev app]. rewrite (elem_of_long _ L). cbv beta iota zeta. unfold pk_from_elem, pk_from_slice.
+  rewrite (D k eq_refl). cbn [negb andb]. rewrite SHP, HB. unfold p2wpkh_bytes. rewrite ftx_bytes_eqb_refl. reflexivity.
+Qed.
+
+Lemma from_txdata_complete_shwpkh : forall e fe co spk ssig wit h el r kh,
+    spk_is_p2sh spk = Some h ->
+    ssig_stack_of ssig = Some (el :: r) -> spk_is_p2wpkh (conc el) = Some kh ->
+    verify_spend e co spk ssig wit = true ->
+    (forall k, hd_error (rev wit) = Some k -> f_pk fe k = Some true) ->
+    exists k sg, wit = [sg; k] /\
+                 from_txdata e fe spk ssig wit = FOk (InPk k PtShWpkh) [elem_of sg] (Some (p2pkh_bytes (e_hash160 e k))).
+Proof.
+  intros e fe co spk ssig wit h el r kh SH SS RWP V D.
+  destruct (p2sh_others _ _ SH) as (PK & PKH & WP & W & TR & SPK).
+  pose proof (p2wpkh_shape _ _ RWP) as SHP.
+  assert (RW : spk_is_p2wsh (conc el) = None) by (rewrite SHP; reflexivity).
+  unfold verify_spend in V. rewrite W, WP, SH in V. unfold verify_sh in V.
+  destruct (ssig_bridge _ _ SS) as (ss & P & PO). rewrite P, PO in V. cbn [map] in V.
+  rewrite RW, RWP in V.
+  apply andb_true_iff in V. destruct V as [_ V].
+  apply andb_true_iff in V. destruct V as [V V2]. apply andb_true_iff in V. destruct V as [HB _].
+  destruct r; [|discriminate]. cbn [map] in V2. unfold verify_wpkh in V2.
+  destruct wit as [|sg [|k [|]]]; try discriminate.
+  apply andb_true_iff in V2. destruct V2 as [L V2]. rewrite p2pkh_exec in V2.
+  apply andb_true_iff in V2. destruct V2 as [V2 _]. apply andb_true_iff in V2. destruct V2 as [HK _].
+  apply ftx_bytes_eqb_eq in HK. apply ftx_bytes_eqb_eq in HB.
+  destruct el as [| |rb]; try discriminate. cbn [conc] in *.
+  exists k, sg. split; [reflexivity|].
+  unfold from_txdata. rewrite SS, PK, PKH, WP, W, TR, SH. cbv beta iota zeta.
+  rewrite SPK, HB, ftx_bytes_eqb_refl. cbn [negb]. rewrite RWP.
+  cbn [map rev app]. rewrite (elem_of_long _ L). cbv beta iota zeta. unfold pk_from_elem, pk_from_slice.
+  rewrite (D k eq_refl). cbn [negb andb]. rewrite SHP, HK. unfold p2wpkh_bytes. rewrite ftx_bytes_eqb_refl. reflexivity.
+Qed.
+
+Lemma from_txdata_complete_pk : forall e fe co spk ssig wit k st c,
+    spk_is_p2pk spk = Some k -> ssig_stack_of ssig = Some st ->
+    verify_spend e co spk ssig wit = true -> f_pk fe k = Some c ->
+    from_txdata e fe spk ssig wit = FOk (InPk k PtPk) st (Some spk).
+Proof.
+  intros e fe co spk ssig wit k st c PK SS V D.
+  destruct (p2pk_others _ _ PK) as (WP & W & TR & SH).
+  unfold verify_spend in V. rewrite W, WP, SH, TR in V. unfold verify_bare in V.
+  destruct wit; [|discriminate].
+  unfold from_txdata. rewrite SS, PK. cbn [map rev]. unfold pk_from_slice. rewrite D. reflexivity.
+Qed.
